@@ -90,11 +90,12 @@ def gen_chan(kind):
 
 # ------------------------------------------------------------------ fiber_multi_channel.h
 
-# Deterministic replays of F-C11 (kept first, like a corpus): on ONE kernel thread the run
-# is fully determined by the script (no preemption), whatever the scheduler seed.
+# Regression corpus (run first): the deterministic replays of F-C11 — on ONE kernel thread the
+# run is fully determined by the script, whatever the scheduler seed.  They hung on the code
+# before /repo commit b18179b (one mixed waiter list) and complete since.
 F_C11_CORPUS = [
     # capacity 2, senders 16 (s1,s2) 17 (s3) 18 (s4,s5,s6), receivers 19 (r,r) 20 (r) 21 (r,r,r):
-    # ends with the ring full, waiter list [sender 16, receiver 21], nobody active
+    # (old code: ended with the ring full, waiter list [sender 16, receiver 21], nobody active)
     {"args": [1, 1, "s1,s2|s3|s4,s5,s6|r,r|r|r,r,r", "S3R3C2"],
      "env": {"VR_SEED": 1, "VR_SCHED": "rand", "VR_BUDGET": 200000}},
     {"args": [1, 1, "s1,s2|s3|s4,s5,s6|r,r|r|y|r,r,y,r", "S3R4C2"],
@@ -152,6 +153,7 @@ SPEC = {
         "trusted_base": [
             "MPSC/SPSC queues of the unbounded channels kept abstractly (ghost order + linked flags + pops), every logged head/tail/next/data value checked against it; adequacy for all interleavings is C15 (Mpsc.pop_is_next_in_order / Spsc)",
             "the multi channel's fiber mutex kept as an abstract lock (owner + counter word + hand-off event), its waiter-queue cells skipped by name; that the fiber mutex behaves like a lock is C03 (Mutex.mutual_exclusion / refines_lock)",
+            "multi channel: the list discipline (one mixed waiter list / receivers' + senders' lists) is read off the struct layout by the harness and the trace is validated against that variant of the model; the full no_lost_wake theorem is for the two-list variant (/repo since b18179b)",
             "scheduler traffic on fiber state words is skipped (runtime model, C01/C02), except the deferred set_wait_location / mutex_to_unlock actions executed by the successor, which are model steps",
             "a woken fiber is eventually run by the scheduler (C02) — the models only say WHEN a wake-up is issued",
         ],
